@@ -168,16 +168,23 @@ func (l *Ledger) ACLOk(cl *mqtt.Client, topic string, write bool) (n int, ok boo
 	// of iterating through global rules.
 	if l.Users != nil {
 		if u, ok := l.Users[string(cl.Properties.Username)]; ok && len(u.ACL) > 0 {
+			// several of the user's filters may match the topic; the map is iterated in random
+			// order, so the verdict must not depend on which one is seen first: access is granted
+			// if any matching filter grants it and denied if filters match but none grants it
+			// (the same rule as for the filters of a global rule below).
+			matched := false
 			for filter, access := range u.ACL {
 				if filter.FilterMatches(topic) {
+					matched = true
 					if !write && (access == ReadOnly || access == ReadWrite) {
 						return n, true
 					} else if write && (access == WriteOnly || access == ReadWrite) {
 						return n, true
-					} else {
-						return n, false
 					}
 				}
+			}
+			if matched {
+				return n, false
 			}
 		}
 	}
